@@ -110,9 +110,30 @@ def check(ctx, phi, phase_step, case, tag):
     ctx.count('good_structure_ok')
 
 
+def thread_cases(seed):
+    """Cycle detection on long float64 phases with different wrap positions, from different threads at the same time."""
+    from emd import cycles as C
+    r = np.random.default_rng(seed)
+    n = int(gens.pick(r, [50000, 400000, 400000, 400000]))
+    calls = []
+    for k in range(4):
+        per = float(r.uniform(20, 90))
+        ph = np.mod(np.cumsum(np.full(n, 2 * np.pi / per) * r.uniform(.8, 1.2, n)) + float(r.uniform(0, 6)), 2 * np.pi)
+        calls.append((lambda p, g: (lambda: C.get_cycle_vector(p, return_good=g)))(ph, bool(k % 2)))
+    return calls, {'seed': int(seed), 'n': n}
+
+
+def thread_check(ctx, seed):
+    from ..monitors import thread_probe
+    calls, tcase = thread_cases(seed)
+    return thread_probe(ctx, 'get_cycle_vector (%d samples)' % tcase['n'], calls, 4 if tcase['n'] > 100000 else 12, tcase)
+
+
 def run_shard(ctx):
     from emd import cycles as C
     rng = ctx.rng
+    if ctx.shard % 4 == 1:
+        thread_check(ctx, int(rng.integers(1 << 30)))
     idx = 0
     for L in range(2, MAXLEN[ctx.tier] + 1):
         for seq in itertools.product(ALPHA, repeat=L):
@@ -157,6 +178,10 @@ def run_shard(ctx):
             m = int(rng.integers(2, 4))
             cols = [gens.synthetic_phase(rng, n=len(phi), ncycles=12) for _ in range(m - 1)]
             cols = [c for c in cols if len(c) == len(phi)]
+            if rng.random() < .4:
+                # a slow / residual component next to the fast ones: a column without any wrap (it simply has no cycles)
+                cols.append(np.linspace(float(rng.uniform(0, 1)), float(rng.uniform(2, 5)), len(phi)))
+                ctx.count('multicolumn_inputs_with_a_wrap_free_column')
             P = np.stack([phi] + cols, axis=1)
             case = {'kind': 'multi', 'phase': P, 'phase_step': st}
             for rg in (False, True):
@@ -187,6 +212,11 @@ def finalize(agg, tier):
 
 def replay(ctx, case):
     from emd import cycles as C
+    if case.get('kind') == 'threads':
+        for _ in range(5):
+            if not thread_check(ctx, case['seed']):
+                break
+        return
     if case['kind'] == 'long':
         phi = np.tile(np.linspace(0.02, 6.25, case['period']), case['n'] // case['period'] + 1)[:case['n']]
         check(ctx, phi, 1.5 * np.pi, case, 'replay')
